@@ -16,6 +16,7 @@ SRC = '''
 (defmacro _c [#* x] 903)
 '''
 SRC2 = SRC + '\n(setv _hy_export_macros ["a"])\n'
+SRC3 = SRC + '\n(setv _hy_export_macros [])\n'
 
 
 def prepare_sources(run):
@@ -23,15 +24,17 @@ def prepare_sources(run):
     d.mkdir(exist_ok=True)
     (d / "S.hy").write_text(SRC)
     (d / "S2.hy").write_text(SRC2)
+    (d / "S3.hy").write_text(SRC3)
     if str(d) not in sys.path:
         sys.path.insert(0, str(d))
-    for m in ("S", "S2"):
+    for m in ("S", "S2", "S3"):
         sys.modules.pop(m, None)
     return d
 
 
 REQ_TEXT = {"plain": "(require S)", "as": "(require S :as p)", "list": "(require S [a b :as bb _c])",
-            "star": "(require S *)", "plain-exp": "(require S2)", "star-exp": "(require S2 *)"}
+            "star": "(require S *)", "plain-exp": "(require S2)", "star-exp": "(require S2 *)",
+            "star-empty": "(require S3 *)"}
 
 
 def render_history(h, variant=0):
@@ -212,8 +215,16 @@ def main_c36(run):
                 defs.append(f"(defmacro {m} [x] {body})")
             text = "\n".join(defs) + "\n(defn f [x] x)"
             exec(compile(hy_compile(hy.read_many(text), mod), name, "exec"), mod.__dict__)
-            for variant in ("module", "extra", "local"):
-                src = hy.read("(if 7 8 9)" if e["start"] == "if" else f"({e['start']} 7)")
+            # the same macros once more under dotted names, as (require lib :as p) registers them
+            for m in ("m1", "m2", "m3"):
+                t = e["env"][m]
+                tgt = f"p.{t}" if t in ("m1", "m2", "m3") else t
+                body = "5" if t == "5" else "`(if ~x 8 9)" if t == "if" else f"`({tgt} ~x)"
+                mod._hy_macros[f"p.{m}"] = hy.eval(hy.read(f"(fn [x] {body})"), mod.__dict__, module=mod)
+            for variant in ("module", "extra", "dotted", "local"):
+                dotted = variant == "dotted"
+                pre = "p." if dotted and e["start"] in ("m1", "m2", "m3") else ""
+                src = hy.read("(if 7 8 9)" if e["start"] == "if" else f"({pre}{e['start']} 7)")
                 before = copy.deepcopy(src)
                 kw = {"module": mod}
                 if variant == "extra":
@@ -227,7 +238,10 @@ def main_c36(run):
                     run.violation(f"mutated:{k}:{variant}", f"macroexpand mutated its input ({e['start']} 7) in env {e['env']}",
                                   {"env": e})
                 for got, want, which in ((one, e["one"], "macroexpand-1"), (allx, e["all"], "macroexpand")):
-                    wm = hy.read(form_text(want))
+                    wt = form_text(want)
+                    if dotted and want["shape"] == "call" and want["h"] in ("m1", "m2", "m3"):
+                        wt = f"(p.{want['h']} 7)"
+                    wm = hy.read(wt)
                     d = model_diff(hy.as_model(wm), hy.as_model(got))
                     if d:
                         run.violation(f"{which}:{json.dumps(e['env'], sort_keys=True)}:{e['start']}:{variant}",
@@ -293,15 +307,28 @@ def main_c37(run):
     from hy.compiler import hy_compile
     rng = random.Random(run.seed)
     q = run.quick
-    r = tlc.run("HyReaderMacros", tlc.cfg(constants={"MaxA": 3, "MaxB": 2},
+    r = tlc.run("HyReaderMacros", tlc.cfg(constants={"MaxA": 3 if q else 3, "MaxB": 3},
                                           invariants=["UseNeedsEarlierDef", "ModulesIsolated", "StrictAlternation", "Export"]),
                 run.work, workers=16, timeout=3000, label="rm")
     if r.violated:
         raise MachineryError(f"HyReaderMacros: {r.violated} violated on the specification")
-    run.add_tlc(r, "HyReaderMacros: every pair of streams (<= 3 items in A, <= 2 in B)")
+    run.add_tlc(r, "HyReaderMacros: every pair of streams (<= 3 items in A, <= 3 in B)")
     cases = r.ex("CASE")
     run.log(f"TLC: {len(cases)} stream pairs")
-    cases = rng.sample(cases, min(len(cases), 1200 if q else 25000))
+    # streams where B re-binds a reader name it already has (define then require, require then define) first
+    def rebinding(c):
+        seen = set()
+        for k_, n_ in c["sb"]:
+            if k_ in ("def", "req"):
+                if n_ in seen:
+                    return True
+                seen.add(n_)
+        return False
+    hot = [c for c in cases if rebinding(c) and c["sb"][-1][0] == "use"]
+    cold = [c for c in cases if not (rebinding(c) and c["sb"][-1][0] == "use")]
+    cap = 1400 if q else 40000
+    nh = min(len(hot), cap // 3)
+    cases = rng.sample(hot, nh) + rng.sample(cold, min(len(cold), cap - nh))
     d = run.work / "rmods"
     d.mkdir(exist_ok=True)
     sys.path.insert(0, str(d))
@@ -419,7 +446,7 @@ def main_c37(run):
         sys.path.remove(str(d))
     run.sample({"A": cases[0]["sa"], "B": cases[0]["sb"], "text_A": render_stream(cases[0]["sa"], 100)})
     return run.finish("model_checking",
-                      "every pair of top-level streams (module A <= 3 items, module B <= 2) over defreader, defreader "
+                      "every pair of top-level streams (module A <= 3 items, module B <= 3) over defreader, defreader "
                       "returning None, uses, a form that defines and uses at once, and require :readers, for two reader "
                       "names; TLC computes per stream the results of the uses and the item at which reading must fail; each "
                       "pair is written as two module files and imported, and A is also compiled through an explicit fresh "
